@@ -695,6 +695,15 @@ pub fn main(args: &[String]) -> i32 {
                 let (t, s) = gen_soup(&mut rng, l);
                 (t, s, "soup".to_string())
             }
+            "mutant" if i == 0 => {
+                // fixed first case: a text in binary function style without parentheses on which the two parsers disagree
+                // (known finding F13), so that every run exercises its classification
+                let t = vec![
+                    OpDesc { name: intern(">"), bin: true, un: false, constant: false, prio: 0, comm: false },
+                    OpDesc { name: intern("+"), bin: true, un: true, constant: false, prio: 5, comm: false },
+                ];
+                (t, ">(a0 +b7 )+ c 1".to_string(), "mutant-f13".to_string())
+            }
             "mutant" => {
                 let (t, s) = gen_mutant(&mut rng);
                 (t, s, "mutant".to_string())
